@@ -14,7 +14,8 @@ LEVEL_NOTE = 'trusted: vk/ref_circuit.py (model + walker); histories stay within
 DESIGN_REF = 'DESIGN.md section 3 C09'
 LEVEL = 'exploration'
 RULE = ('Cases: edit histories from a seeded generator that picks the next operation from the current state. Non-trivial iff the history contains a removal that moves '
-        'another element into the hole and a later edit touches the moved element. Distinct = digest of the executed operation log.')
+        'another element into the hole and a later edit touches the moved element. Distinct = digest of the executed operation log.'
+        ' Plus edit histories on forks with 65-300 branches; copies are compared up to renumbering.')
 ASSUMPTIONS = ['well-formed use: explicit pins only on free positions, a fork has at most one driver and only implicit output pins, no self loops, nodes are removed only '
                'when disconnected and not ports, substitute only with matching pin counts',
                'pin lists are compared modulo trailing unconnected positions after copy / pickle']
